@@ -215,14 +215,14 @@ Schemes  == {"http", "https", "httpMixed", "javascript", "data", "vbscript", "js
              "leadSpace", "leadCtl", "schemeRel", "relPath", "colonFirst", "empty"}
 HttpSchemes == {"http", "https", "httpMixed"}
 \* shapes of what follows an http-ish scheme (the value after XML decoding)
-CtlShapes  == {"ctlCR", "ctlLF", "ctlCRLF", "ctlTAB", "ctlDEL", "ctlC0",   \* a control character in front of the fragment (CR LF + header-looking
-               "ctlFrag"}                                                 \* text; C0 others: XML cannot carry them, the document is ill-formed),
-                                                                         \* or in the fragment
+CtlShapes  == {"ctlCR", "ctlLF", "ctlCRLF", "ctlTAB", "ctlDEL", "ctlC0"}   \* a control character in front of the fragment (CR LF + header-looking
+                                                                         \* text; C0 others: XML cannot carry them, the document is ill-formed)
 HostShapes == {"badBracket", "badPort", "badPctHost", "spaceHost"}        \* https://[::1/x  https://h:port/x  https://%zz.h/x  https://h h/x
 TailShapes == {"badPctPath", "badPctFrag"}                                \* https://h/%zz  https://h/x#%zz
 NotUrlShapes == CtlShapes \cup HostShapes \cup TailShapes
 \* strings net/url takes although a strict reader would not (or that are URLs of the generic syntax only)
-LaxShapes  == {"emptyHost", "schemeOnly", "opaque", "spacePath", "badPctQuery", "idnU", "rawUnicode", "rawDelims"}
+LaxShapes  == {"emptyHost", "schemeOnly", "opaque", "spacePath", "badPctQuery", "idnU", "rawUnicode", "rawDelims",
+               "ctlFrag"}                                                 \* CR / LF / TAB / DEL behind the "#" only
 \* well-formed, unusual
 FineShapes == {"userinfo", "ipv6", "ipv4", "port", "pctPath", "query", "fragment", "idnA", "long", "noPath", "subDelims"}
 Shapes == {"plain"} \cup NotUrlShapes \cup LaxShapes \cup FineShapes
@@ -255,12 +255,11 @@ NameBeforeColon(v) == CASE v.scheme \in {"http", "httpMixed"} -> "http"
                         [] v.scheme = "data" -> "data"
                         [] v.scheme = "vbscript" -> "vbscript"
                         [] OTHER -> ""                           \* blanks / a control character in front, no colon, colon first
-\* The REQUIRED reading is modelled: a control character anywhere makes the value unparsable.  Named deviation of
-\* the pinned tree, found by the harness and not modelled as behaviour:
+\* Named leniency of net/url that is modelled (class DontCare):
 \*   FragmentNotScanned   url.Parse cuts the fragment off before it looks for control characters and setFragment
-\*                        only unescapes: a CR / LF / TAB / DEL after the "#" passes (shape "ctlFrag")
+\*                        only unescapes: a CR / LF / TAB / DEL behind the "#" passes (shape "ctlFrag")
 UrlParse(v) ==
-  \* stringContainsCTLByte: any byte below 0x20 or 0x7f
+  \* stringContainsCTLByte on the part in front of "#": any byte below 0x20 or 0x7f
   IF v.shape \in CtlShapes \/ v.scheme = "leadCtl" THEN UFail
   \* getScheme: letters (digits + - . after the first) up to a colon; a colon in front is "missing protocol scheme";
   \* any other first character means "no scheme", and then a colon in the first path segment is an error
@@ -405,21 +404,26 @@ FormClass == IF c.slot # "URL" THEN "MustAccept"
 \* "for the standard bindings, http or https URLs or else parsing fails; for unknown bindings blanked".
 \* What a class of strings IS, from the definitions of a URL (RFC 3986 generic syntax, RFC 9110 http / https
 \* URIs, the WHATWG URL standard) - not from what net/url does:
-\*   NotUrl    not a URL under any of them: a control character anywhere, an IPv6 literal without its bracket,
-\*             a port that is not a number, a percent sign without two hex digits, a blank in the host
+\*   NotUrl    not a URL under any of them: a control character in scheme, authority, path or query, an IPv6
+\*             literal without its bracket, a port that is not a number, a percent sign without two hex digits,
+\*             a blank in the host
 \*   Lax       the definitions disagree or only the generic syntax admits it (no host, no "//", blank or raw
-\*             non-ASCII / delimiter characters in the path, a malformed escape in the query, a U-label host)
+\*             non-ASCII / delimiter characters in the path, a malformed escape in the query, a U-label host),
+\*             and a control character that sits behind the "#" only: the fragment never travels to a server,
+\*             what is in front of it is an http(s) URL, and the statement's concern (the scheme that reaches a
+\*             form action or redirect) is not touched - the statement does not rule on it
 \*   WellFormed  an http(s) URL under all of them, however unusual (user name, IP literals, port, escapes,
 \*             query, fragment, A-label host, long, no path, sub-delimiters)
-NotUrl(v)     == v.shape \in {"ctlCR", "ctlLF", "ctlCRLF", "ctlTAB", "ctlDEL", "ctlC0", "ctlFrag",
+NotUrl(v)     == v.shape \in {"ctlCR", "ctlLF", "ctlCRLF", "ctlTAB", "ctlDEL", "ctlC0",
                               "badBracket", "badPort", "badPctHost", "spaceHost", "badPctPath", "badPctFrag"}
-Lax(v)        == v.shape \in {"emptyHost", "schemeOnly", "opaque", "spacePath", "badPctQuery", "idnU", "rawUnicode", "rawDelims"}
+Lax(v)        == v.shape \in {"emptyHost", "schemeOnly", "opaque", "spacePath", "badPctQuery", "idnU", "rawUnicode", "rawDelims",
+                              "ctlFrag"}
 WellFormed(v) == v.shape \in {"plain", "userinfo", "ipv6", "ipv4", "port", "pctPath", "query", "fragment", "idnA", "long",
                               "noPath", "subDelims"}
 HttpPrefix(v) == v.scheme \in {"http", "https", "httpMixed"}
 Blankish == {Blank, AbsentV, EmptyV}
 \* a value that may be left in a parsed document: nothing, or an http(s)-schemed string that is not NotUrl
-\* (in particular free of CR / LF / control characters)
+\* (in particular free of CR / LF / control characters in front of the fragment)
 SafeValue(v) == v \in Blankish \/ (HttpPrefix(v) /\ ~NotUrl(v))
 Target == IF c.attr = "Location" THEN loc ELSE rloc
 Case == V(c.scheme, c.shape)
